@@ -133,7 +133,47 @@ func addHeaders(r *http.Request, cfg config.Proxy, stripPath string) error {
 		}
 	}
 
+	// The headers set above are for the upstream. A client which lists
+	// them in its Connection header would make the reverse proxy drop
+	// them as hop-by-hop headers.
+	keepHeaders(r.Header, "X-Forwarded-For", "X-Real-Ip", "X-Forwarded-Proto", "X-Forwarded-Port",
+		"X-Forwarded-Host", "X-Forwarded-Prefix", "Forwarded", cfg.ClientIPHeader, cfg.TLSHeader)
+
 	return nil
+}
+
+// keepHeaders removes the given header names from the list of
+// hop-by-hop headers in the Connection header.
+func keepHeaders(h http.Header, names ...string) {
+	conn, ok := h["Connection"]
+	if !ok {
+		return
+	}
+	var vals []string
+	for _, v := range conn {
+		var tokens []string
+	token:
+		for _, t := range strings.Split(v, ",") {
+			t = strings.TrimSpace(t)
+			if t == "" {
+				continue
+			}
+			for _, n := range names {
+				if n != "" && strings.EqualFold(t, n) {
+					continue token
+				}
+			}
+			tokens = append(tokens, t)
+		}
+		if len(tokens) > 0 {
+			vals = append(vals, strings.Join(tokens, ", "))
+		}
+	}
+	if len(vals) == 0 {
+		delete(h, "Connection")
+		return
+	}
+	h["Connection"] = vals
 }
 
 var tlsver = map[uint16]string{
@@ -225,8 +265,10 @@ func localPort(r *http.Request) string {
 	if r == nil {
 		return ""
 	}
-	n := strings.Index(r.Host, ":")
-	if n > 0 && n < len(r.Host)-1 {
+	// the port follows the last colon unless that colon belongs
+	// to an IPv6 literal like [::1]
+	n := strings.LastIndex(r.Host, ":")
+	if n > 0 && n < len(r.Host)-1 && !strings.Contains(r.Host[n:], "]") {
 		return r.Host[n+1:]
 	}
 	if r.TLS != nil {
